@@ -219,7 +219,7 @@ Definition dec_payload (payload : list rfield) (bytes : string) : option (list r
     | None => None
     | Some j =>
         match payload with
-        | [f] => match dec_json (rf_ty f) bytes with Some v => Some [APayloadVal v] | None => None end
+        | [f] => Some [APayloadVal j]
         | fs =>
             match j with
             | JArr items =>
@@ -299,6 +299,10 @@ Definition dispatch_reply (t : list reply_data) (r : reply) : rres :=
   end.
 
 End ReplySem.
+
+Arguments RCalled {outcome}.
+Arguments RPass {outcome}.
+Arguments RErr {outcome}.
 
 (* ids *)
 Fixpoint id_of_aux (t : list reply_data) (hid : string) (i : N) : option N :=
